@@ -4,10 +4,12 @@ import (
 	"bytes"
 	"fmt"
 	"reflect"
+	"sync"
 
 	"verifharness/core"
 	"verifharness/gen"
 	"verifharness/model"
+	"verifharness/types"
 )
 
 // C06: Marshal appends.
@@ -26,7 +28,62 @@ func pointerShaped(t reflect.Type, how int) reflect.Type {
 	return reflect.StructOf([]reflect.StructField{{Name: "X", Type: inner, Tag: `plenc:"1"`}})
 }
 
+// c06Deep: the result depends on the value alone also for a value a thousand levels deep while 15
+// other goroutines encode theirs
+func c06Deep(c *core.Ctx, idx int) {
+	rec := c.Rec
+	cfg := instCfgs()[idx%4]
+	name := cfgName(cfg)
+	p := instNew(cfg)
+	const g, depth = 16, 1000
+	heads := make([]*types.Tree, g)
+	refs := make([][]byte, g)
+	for w := range heads {
+		for i := 0; i < depth; i++ {
+			heads[w] = &types.Tree{V: i*g + w, Next: heads[w]}
+		}
+		b, err := p.Marshal(nil, heads[w])
+		if err != nil {
+			rec.Violation("marshal-error", fmt.Sprintf("[%s] a list %d deep: %v", name, depth, err), nil)
+			return
+		}
+		refs[w] = b
+	}
+	var wg sync.WaitGroup
+	fails := make([]string, g)
+	start := make(chan struct{})
+	for w := 0; w < g; w++ {
+		wg.Add(1)
+		go func(w int) {
+			defer wg.Done()
+			<-start
+			for k := 0; k < 3 && fails[w] == ""; k++ {
+				prefix := []byte{0xAB, 0xCD}
+				out, err, pn := marshal(p, append(make([]byte, 0, 64), prefix...), heads[w])
+				if err != nil || pn != "" || len(out) < 2 || !bytes.Equal(out[:2], prefix) || !bytes.Equal(out[2:], refs[w]) {
+					fails[w] = fmt.Sprintf("Marshal(buf, v) is not buf followed by what Marshal(nil, v) gave alone: %v %s (%d bytes, alone %d)", err, trunc1(pn), len(out), len(refs[w])+2)
+				}
+			}
+		}(w)
+	}
+	close(start)
+	wg.Wait()
+	rec.Eval(3 * g)
+	rec.Count("deep_concurrent_marshals", 3*g)
+	rec.NonTrivial(core.Hash64("deep", name, fmt.Sprint(idx)))
+	for w, f := range fails {
+		if f != "" {
+			rec.Violation("concurrent-callers", fmt.Sprintf("[%s] %d goroutines, each encoding its own list %d levels deep: goroutine %d: %s", name, g, depth, w, f), nil)
+			return
+		}
+	}
+}
+
 func c06Case(c *core.Ctx, idx int) {
+	if idx%101 == 5 {
+		c06Deep(c, idx)
+		return
+	}
 	rec := c.Rec
 	tc := genType(c, idx, nil)
 	if idx%5 == 0 && tc.typ.Kind() != reflect.Map {
